@@ -34,8 +34,11 @@ Parents(S) == { d \in Idx : \E i \in S : Under(i, d) }        \* directories nee
 TExtract == /\ IsEvent("call") /\ Ev.name \in {"extract", "extractall"}
             /\ IF Ev.name = "extract" THEN Extract(ToSet(Ev.T), Ev.rec) ELSE ExtractAll
             \* C09 / C12: exactly the selected members, each with its own bytes, nothing else
-            /\ Ev.ok = res'.ok                                                  \* raises exactly when a damaged folder has to be decoded
-            /\ res'.ok =>
+            \* intact archive: succeeds exactly as a fresh session would.  Damaged folder: a call that HAS to decode it must raise; the
+            \* code may decode more than it has to (members in front of a selected empty entry) and meet the damage there as well
+            /\ (a.damaged = {} => Ev.ok = res'.ok)
+            /\ (~res'.ok => ~Ev.ok)
+            /\ (res'.ok /\ Ev.ok) =>
                  /\ ToSet(Ev.out) = NonDirs(res'.out)
                  /\ IF Ev.sink = "factory" THEN Ev.dirs_out = <<>>                    \* a WriterFactory never receives directories
                     ELSE /\ Dirs(res'.out) \subseteq ToSet(Ev.dirs_out)              \* selected directories are created
